@@ -10,7 +10,7 @@
    = every Exec of the history names the row's primary key and the index keys of its old
    and new contents, and every explicit Set stores what the database holds. *)
 From Coq Require Import List ZArith Bool NArith.
-From GZ Require Import C06.Model C06.Proofs C06.ProofsB.
+From GZ Require Import C06.Model C06.Proofs C06.GenProofs C06.ProofsB.
 Import ListNotations.
 Open Scope Z_scope.
 
@@ -24,17 +24,19 @@ Open Scope Z_scope.
 Theorem coherent_reads : forall c rows ops,
   NoDup (map fst rows) -> all_disciplined c (init rows) ops = true ->
   let s := final c (init rows) ops in
-  (forall p t, dirty s (KP p) = false ->
-     db (fst (step c s (OTake p t))) = db s /\
-     (forall p' u v, oret (snd (step c s (OTake p t))) = RRow p' u v -> p' = p /\ db_get p (db s) = Some (u, v)) /\
-     (oret (snd (step c s (OTake p t))) = RNf -> db_get p (db s) = None)) /\
+  (* o = OTake p t, or OTakeMid p t n: the same with node n failing during the database query *)
+  (forall p o, take_like o p -> dirty s (KP p) = false ->
+     db (fst (step c s o)) = db s /\
+     (forall p' u v, oret (snd (step c s o)) = RRow p' u v -> p' = p /\ db_get p (db s) = Some (u, v)) /\
+     (oret (snd (step c s o)) = RNf -> db_get p (db s) = None)) /\
   (forall p, dirty s (KP p) = false ->
      forall p' u v, oret (snd (step c s (OGet p))) = RRow p' u v -> p' = p /\ db_get p (db s) = Some (u, v)) /\
-  (forall u t, dirty s (KU u) = false ->
+  (* o = OQri u t or OQriMid u t n *)
+  (forall u o, qri_like o u -> dirty s (KU u) = false ->
      (forall e p, lookup (clock s) (cache s) (KU u) = Some e -> eval e = CPk p -> dirty s (KP p) = false) ->
-     db (fst (step c s (OQri u t))) = db s /\
-     (forall p u' v, oret (snd (step c s (OQri u t))) = RRow p u' v -> u' = u /\ db_get p (db s) = Some (u, v)) /\
-     (oret (snd (step c s (OQri u t))) = RNf -> forall p v, db_get p (db s) <> Some (u, v))).
+     db (fst (step c s o)) = db s /\
+     (forall p u' v, oret (snd (step c s o)) = RRow p u' v -> u' = u /\ db_get p (db s) = Some (u, v)) /\
+     (oret (snd (step c s o)) = RNf -> forall p v, db_get p (db s) <> Some (u, v))).
 Proof. exact coherent_reads_lemma. Qed.
 Print Assumptions coherent_reads.
 
@@ -64,7 +66,11 @@ Print Assumptions served_from_cache.
    state is unchanged (nothing cached, nothing invalidated); and while the database is
    down, a miss / an Exec does report that error. *)
 Theorem db_error_not_cached : forall c s,
-  (forall o, oret (snd (step c s o)) = RDbErr -> fst (step c s o) = s) /\
+  (forall o, is_mid o = false -> oret (snd (step c s o)) = RDbErr -> fst (step c s o) = s) /\
+  (* including the operations that inject an outage themselves: store, database, timers unchanged *)
+  (forall o, oret (snd (step c s o)) = RDbErr ->
+     let s' := fst (step c s o) in
+     db s' = db s /\ cache s' = cache s /\ pending s' = pending s /\ lost s' = lost s /\ clock s' = clock s) /\
   (dbFault s = true ->
      (forall p t, key_down c s (KP p) = false -> lookup (clock s) (cache s) (KP p) = None ->
         step c s (OTake p t) = (s, mkObs RDbErr 0 1)) /\
@@ -85,7 +91,7 @@ Theorem cache_error_fails_fast : forall c s,
      eval e = CPk p -> key_down c s (KP p) = true -> step c s (OQri u t) = (s, mkObs RCErr 0 0)) /\
   (forall p u v t, key_down c s (KP p) = true -> step c s (OSet p u v t) = (s, mkObs RCErr 0 0)) /\
   (forall p u v d, key_down c s (KP p) = true -> step c s (OSetEx p u v d) = (s, mkObs RCErr 0 0)) /\
-  (forall o, oret (snd (step c s o)) = RCErr -> cfault s <> []).
+  (forall o, is_mid o = false -> oret (snd (step c s o)) = RCErr -> cfault s <> []).
 Proof. exact cache_error_lemma. Qed.
 Print Assumptions cache_error_fails_fast.
 
